@@ -17,6 +17,7 @@ type job struct {
 	weight       int    // CPU slots this unit occupies (default 1)
 	arch         string // "386": run this job with the 32-bit build of the tests
 	child386     bool   // child processes of this job are the 32-bit build (no race detector there)
+	plain        bool   // run this job (and its child processes) in the build without the "verif" tag
 	env          []string
 }
 
@@ -45,6 +46,7 @@ var props = map[string]*prop{
 		level: "exploration", exhaustive: false,
 		jobs: []job{
 			regress,
+			{name: "table-untagged", run: "^TestC01_Table$", plain: true},
 			{name: "table-int32", run: "^TestC01_Table$", arch: "386", thoroughOnly: true},
 			{name: "random-int32", run: "^TestC01_Random$", arch: "386", shards: [2]int{2, 4}, checks: [2]int{5000, 100000}},
 			{name: "after-validation", run: "^TestC01_AfterValidation$"},
@@ -60,6 +62,7 @@ var props = map[string]*prop{
 		level: "exploration",
 		jobs: []job{
 			regress,
+			{name: "table-untagged", run: "^TestC02_Table$", plain: true, shards: [2]int{2, 4}},
 			{name: "table-int32", run: "^TestC02_Table$", arch: "386", shards: [2]int{2, 4}},
 			{name: "concurrent", run: "^TestC02_Concurrent$", weight: 8},
 			{name: "table", run: "^TestC02_Table$", shards: [2]int{4, 16}},
@@ -71,6 +74,7 @@ var props = map[string]*prop{
 		level: "exploration",
 		jobs: []job{
 			regress,
+			{name: "mutated-untagged", run: "^TestC03_Mutated$", plain: true, checks: [2]int{2500, 40000}},
 			{name: "scan-int32", run: "^TestC03_Scan$", arch: "386", checks: [2]int{10, 60}},
 			{name: "mutated-int32", run: "^TestC03_Mutated$", arch: "386", checks: [2]int{2500, 40000}},
 			{name: "concurrent", run: "^TestC03_Concurrent$", weight: 8},
@@ -94,6 +98,7 @@ var props = map[string]*prop{
 		level: "exploration", exhaustive: false,
 		jobs: []job{
 			regress,
+			{name: "pairs-untagged", run: "^TestC13_Pairs$", plain: true, shards: [2]int{4, 8}},
 			{name: "pairs-386-children", run: "^TestC13_Pairs$", shards: [2]int{4, 8}, child386: true},
 			{name: "pairs", run: "^TestC13_Pairs$", shards: [2]int{8, 16}},
 			{name: "histories", run: "^TestC13_Histories$", shards: [2]int{8, 16}, checks: [2]int{40, 1500}},
@@ -105,6 +110,7 @@ var props = map[string]*prop{
 		level: "exploration",
 		jobs: []job{
 			regress,
+			{name: "grid-untagged", run: "^TestC14_Grid$", plain: true, shards: [2]int{2, 4}},
 			{name: "grid-gomaxprocs1", run: "^TestC14_Grid$", env: []string{"GOMAXPROCS=1"}},
 			{name: "grid-int32", run: "^TestC14_Grid$", arch: "386"},
 			{name: "grid", run: "^TestC14_Grid$", shards: [2]int{4, 16}},
@@ -119,6 +125,7 @@ var props = map[string]*prop{
 		level: "exploration",
 		jobs: []job{
 			regress,
+			{name: "errors-untagged", run: "^TestC15_Errors$", plain: true, checks: [2]int{4000, 60000}},
 			{name: "errors-int32", run: "^TestC15_Errors$", arch: "386", shards: [2]int{2, 4}, checks: [2]int{4000, 60000}},
 			{name: "concurrent", run: "^TestC15_Concurrent$", weight: 8},
 			{name: "errors", run: "^TestC15_Errors$", shards: [2]int{4, 16}, checks: [2]int{5000, 300000}},
@@ -130,6 +137,7 @@ var props = map[string]*prop{
 		level: "exploration",
 		jobs: []job{
 			regress,
+			{name: "seed-untagged", run: "^TestC04_Seed$", plain: true, checks: [2]int{60, 300}},
 			{name: "seed-gomaxprocs1", run: "^TestC04_Seed$", env: []string{"GOMAXPROCS=1"}, checks: [2]int{60, 300}},
 			{name: "seed-int32", run: "^TestC04_Seed$", arch: "386", shards: [2]int{2, 4}, checks: [2]int{120, 500}},
 			{name: "concurrent", run: "^TestC04_Concurrent$", weight: 8},
@@ -141,6 +149,7 @@ var props = map[string]*prop{
 		level: "exploration",
 		jobs: []job{
 			regress,
+			{name: "respell-untagged", run: "^TestC10_Respell$", plain: true, checks: [2]int{2500, 30000}},
 			{name: "sweep-int32", run: "^TestC10_WordSweep$", arch: "386", shards: [2]int{2, 4}},
 			{name: "respell-int32", run: "^TestC10_Respell$", arch: "386", checks: [2]int{2500, 30000}},
 			{name: "concurrent", run: "^TestC10_Concurrent$", weight: 8},
@@ -154,6 +163,7 @@ var props = map[string]*prop{
 		level: "exploration",
 		jobs: []job{
 			regress,
+			{name: "respell-untagged", run: "^TestC11_Respell$", plain: true, checks: [2]int{100, 1500}},
 			{name: "sweep-int32", run: "^TestC11_WordSweep$", arch: "386", shards: [2]int{8, 8}, thoroughOnly: true},
 			{name: "respell-int32", run: "^TestC11_Respell$", arch: "386", shards: [2]int{2, 4}, checks: [2]int{100, 1500}},
 			{name: "concurrent", run: "^TestC11_Concurrent$", weight: 8},
@@ -166,6 +176,7 @@ var props = map[string]*prop{
 		level: "exploration",
 		jobs: []job{
 			regress,
+			{name: "table-untagged", run: "^TestC05_Table$", plain: true, shards: [2]int{2, 4}},
 			{name: "table-int32", run: "^TestC05_Table$", arch: "386", shards: [2]int{2, 4}},
 			{name: "concurrent", run: "^TestC05_Concurrent$", weight: 8},
 			{name: "table", run: "^TestC05_Table$", shards: [2]int{2, 16}},
@@ -180,6 +191,7 @@ var props = map[string]*prop{
 		level: "fault_enumeration", exhaustive: true,
 		jobs: []job{
 			regress,
+			{name: "grid-untagged", run: "^TestC06_Grid$", plain: true, shards: [2]int{2, 4}},
 			{name: "grid-int32", run: "^TestC06_Grid$", arch: "386", shards: [2]int{2, 4}},
 			{name: "concurrent", run: "^TestC06_Concurrent$", weight: 8},
 			{name: "grid", run: "^TestC06_Grid$", shards: [2]int{2, 8}},
@@ -192,6 +204,8 @@ var props = map[string]*prop{
 		level: "exploration",
 		jobs: []job{
 			regress,
+			{name: "children-untagged", run: "^TestC07_Children$", plain: true, shards: [2]int{2, 4}, checks: [2]int{10, 300}},
+			{name: "inprocess-untagged", run: "^TestC07_InProcess$", plain: true, thoroughOnly: true},
 			{name: "concurrent", run: "^TestC07_Concurrent$", weight: 8},
 			{name: "children", run: "^TestC07_Children$", shards: [2]int{8, 16}, checks: [2]int{30, 1500}},
 			{name: "inprocess", run: "^TestC07_InProcess$"},
@@ -203,6 +217,8 @@ var props = map[string]*prop{
 		level: "exploration", exhaustive: true,
 		jobs: []job{
 			regress,
+			{name: "list-untagged", run: "^TestC08_List$", plain: true},
+			{name: "back-untagged", run: "^TestC08_Back$", plain: true, shards: [2]int{4, 8}},
 			{name: "cold-concurrent", run: "^TestC08_ColdConcurrent$", shards: [2]int{2, 4}, weight: 4},
 			{name: "list-int32", run: "^TestC08_List$", arch: "386"},
 			{name: "back-int32", run: "^TestC08_Back$", arch: "386", shards: [2]int{4, 8}},
@@ -217,6 +233,7 @@ var props = map[string]*prop{
 		level: "exploration", exhaustive: true,
 		jobs: []job{
 			regress,
+			{name: "range-untagged", run: "^TestC09_Range$", plain: true},
 			{name: "range-int32", run: "^TestC09_Range$", arch: "386"},
 			{name: "range", run: "^TestC09_Range$", shards: [2]int{1, 16}},
 			{name: "random", run: "^TestC09_Random$", shards: [2]int{1, 16}, checks: [2]int{20000, 300000}},
@@ -236,6 +253,7 @@ var props = map[string]*prop{
 		level: "exploration", exhaustive: true,
 		jobs: []job{
 			regress,
+			{name: "range-untagged", run: "^TestC16_Range$", plain: true},
 			{name: "range-int32", run: "^TestC16_Range$", arch: "386"},
 			{name: "concurrent", run: "^TestC16_Concurrent$", weight: 8},
 			{name: "range", run: "^TestC16_Range$", shards: [2]int{1, 16}},
